@@ -29,10 +29,14 @@ static CORRUPT: AtomicUsize = AtomicUsize::new(0);
 const CANARY: u64 = 0xB16C_A5E0_0000_0000;
 const CAP: usize = 8;
 
+static SALT: AtomicUsize = AtomicUsize::new(0);
 static PANIC_NODE: AtomicUsize = AtomicUsize::new(usize::MAX);
 static PANICKED: AtomicUsize = AtomicUsize::new(0);
 
+/// Larger than 1 KiB on purpose (the script payload is small): code paths that
+/// depend on `size_of::<T>()` are exercised by one of the two.
 pub struct BNode {
+    pad: [u64; 136],
     id: u32,
     canary: u64,
     clone_on_drop: Cell<bool>,
@@ -42,7 +46,7 @@ pub struct BNode {
 impl Drop for BNode {
     fn drop(&mut self) {
         DESTROYED.fetch_add(1, Ordering::Relaxed);
-        if self.canary != CANARY ^ self.id as u64 {
+        if self.canary != CANARY ^ self.id as u64 || self.pad[0] != self.id as u64 || self.pad[135] != self.id as u64 {
             CORRUPT.fetch_add(1, Ordering::Relaxed);
         }
         if PANIC_NODE.load(Ordering::Relaxed) == self.id as usize && !std::thread::panicking() {
@@ -88,6 +92,19 @@ pub struct BigCase {
     /// full, nothing twice)
     #[serde(default)]
     pub panic_at: Option<u32>,
+    /// every ring member also adopts object 0 (object 0 is adopted by n-1
+    /// distinct objects: a link table with many backward entries)
+    #[serde(default)]
+    pub sink: bool,
+    /// C12: an extra object owned and adopted by a ring member is taken back
+    /// without unadopt and then unwrapped (nodrop payload only)
+    #[serde(default)]
+    pub unwrap_probe: bool,
+    /// > 0: instead of one big group, a chain of `nest` two-member rings where a
+    /// member of ring i holds the only (unrecorded) outside handle to ring i+1:
+    /// collecting ring 0 nests `nest` collections inside each other
+    #[serde(default)]
+    pub nest: u16,
 }
 
 pub fn sizes(c: &BigCase, tier: Tier) -> (usize, usize) {
@@ -110,7 +127,7 @@ struct Built {
 unsafe fn build(c: &BigCase, n: usize, m: usize) -> Built {
     let total = n + m;
     let mk = |id: usize| {
-        Rc::new(BNode { id: id as u32, canary: CANARY ^ id as u64, clone_on_drop: Cell::new(false), next: RefCell::new(Vec::with_capacity(CAP)) })
+        Rc::new(BNode { pad: [id as u64; 136], id: id as u32, canary: CANARY ^ id as u64, clone_on_drop: Cell::new(false), next: RefCell::new(Vec::with_capacity(CAP)) })
     };
     let h0: Box<Rc<BNode>> = Box::new(mk(0));
     let mut slot: Vec<*const Rc<BNode>> = vec![std::ptr::null(); total];
@@ -161,6 +178,11 @@ unsafe fn build(c: &BigCase, n: usize, m: usize) -> Built {
         // chords stay inside the ring (a tail must remain acyclic)
         edge(a as usize % n, b as usize % n);
     }
+    if c.sink {
+        for i in 1..n {
+            edge(i, 0);
+        }
+    }
     Built { h0: Some(h0), slot, indeg, adoptions, n, m }
 }
 
@@ -196,13 +218,29 @@ pub const L_GT16: u32 = 7;
 pub const L_TAIL_GT1000: u32 = 8;
 pub const L_NODROP: u32 = 9;
 pub const L_PANIC: u32 = 10;
-pub const NAMES: [&str; 11] = ["adopted_tail", "outside_handles_kept", "outside_weaks", "destructor_clones_peer", "doubly_linked", "group>128", "group>4096", "group>16", "tail>1000", "payload_without_drop_glue", "destructor_panics"];
+pub const L_SINK: u32 = 11;
+pub const L_UNWRAP: u32 = 12;
+pub const L_HUB_EMPTIED: u32 = 13;
+pub const L_NESTED: u32 = 14;
+pub const L_NEST_GT64: u32 = 15;
+pub const NAMES: [&str; 16] = ["adopted_tail", "outside_handles_kept", "outside_weaks", "destructor_clones_peer", "doubly_linked", "group>128", "group>4096", "group>16", "tail>1000", "payload_without_drop_glue", "destructor_panics", "object_adopted_by_every_member", "unwrap_after_taking_back_without_unadopt", "hub_fully_unadopted_again", "nested_collections_chain", "nesting_depth>64"];
 
 fn body(id: &str, c: &BigCase, tier: Tier) {
     let sh = shared();
     arena::st().count_only = true;
     let (n, m) = sizes(c, tier);
     let total = n + m;
+    // heap layout salt (C09): shift every later allocation
+    let salt = SALT.load(Ordering::Relaxed);
+    for k in 0..salt {
+        std::mem::forget(vec![0u8; 24 + 40 * ((k * 7 + salt) % 13)]);
+    }
+    if id == "C14" {
+        return body_hub_emptied(c, tier);
+    }
+    if c.nest > 0 {
+        return body_nested(c);
+    }
     let mut b = unsafe { build(c, n, m) };
     sh.counters[20] = total as u64;
     sh.counters[22] = b.adoptions as u64;
@@ -258,6 +296,9 @@ fn body(id: &str, c: &BigCase, tier: Tier) {
     }
     if clone_node.is_none() && c.panic_at.is_some() {
         l |= 1 << L_PANIC;
+    }
+    if c.sink {
+        l |= 1 << L_SINK;
     }
     sh.labels = l;
     // C06 before anything is dropped
@@ -372,6 +413,7 @@ fn body(id: &str, c: &BigCase, tier: Tier) {
     if d > total {
         violate(View::Mem, &format!("{} destructor runs for {} objects", d, total));
     }
+    sh.counters[27] = d as u64 + 1;
     for (i, w) in &weaks {
         if d == total {
             sh.phase = Phase::WeakCall as u32;
@@ -486,6 +528,47 @@ fn body_nodrop(_id: &str, c: &BigCase, tier: Tier) {
         for &(a, b) in c.chords.iter().take(8) {
             edge(a as usize % n, b as usize % n);
         }
+        if c.sink {
+            for i in 1..n {
+                edge(i, 0);
+            }
+        }
+        if c.unwrap_probe {
+            // C12: member b owns and adopts an extra object a; the handle is taken
+            // back without unadopt, then the sole handle of a is unwrapped
+            l |= 1 << L_UNWRAP;
+            let bi = (c.order as usize >> 1) % n;
+            let hb = borrow(slot[bi]);
+            if hb.n_next.get() < 4 {
+                let a = mk(total);
+                let a_addr = Rc::__verif_addr(&a);
+                let a2 = trk(|| Rc::clone(&a));
+                trk(|| unsafe { Rc::adopt_unchecked(&hb, &a2) });
+                let k = hb.n_next.get();
+                hb.push(Rc::into_raw(a2));
+                // take it back (no unadopt) and give it up
+                let mut arr = hb.next.get();
+                let p = arr[k];
+                arr[k] = std::ptr::null();
+                hb.next.set(arr);
+                hb.n_next.set(k);
+                let back = unsafe { Rc::from_raw(p) };
+                trk(|| drop(back));
+                match trk(|| Rc::try_unwrap(a)) {
+                    Ok(v) => {
+                        let _ = v.id;
+                    }
+                    Err(_) => violate(View::Consume, "try_unwrap failed on the sole strong handle (payload without drop glue)"),
+                }
+                let snap = Rc::__verif_links(&hb);
+                if snap.iter().any(|e| e.0 == a_addr && e.2 > 0) {
+                    violate_soft(
+                        View::Table,
+                        &format!("payload without drop glue: after try_unwrap the former owner still has a link-table entry naming the given-up allocation: {:?}", snap.iter().filter(|e| e.0 == a_addr).collect::<Vec<_>>()),
+                    );
+                }
+            }
+        }
         sh.counters[22] = adoptions as u64;
         let mut kept: Vec<Rc<RNode>> = vec![];
         for &k in c.keep.iter().take(3) {
@@ -573,17 +656,189 @@ fn body_nodrop(_id: &str, c: &BigCase, tier: Tier) {
     }
 }
 
+/// Nested collections (C10 / C03): ring i = {a_i <-> b_i} (adopted both ways);
+/// b_i also holds a plain, unrecorded handle to a_{i+1}, the only outside handle
+/// of ring i+1.  Dropping the program's handle to a_0 collects ring 0, whose
+/// values drop the handle to ring 1, and so on: `nest` collections nested inside
+/// each other.  Everything must be destroyed before the outermost drop returns.
+fn body_nested(c: &BigCase) {
+    let sh = shared();
+    let k = c.nest as usize;
+    sh.counters[20] = 2 * k as u64;
+    sh.labels = (1 << L_NESTED) | (1 << L_GT16) | if k > 64 { 1 << L_NEST_GT64 } else { 0 };
+    DESTROYED.store(0, Ordering::Relaxed);
+    let mk = |id: usize| {
+        Rc::new(BNode { pad: [id as u64; 136], id: id as u32, canary: CANARY ^ id as u64, clone_on_drop: Cell::new(false), next: RefCell::new(Vec::with_capacity(3)) })
+    };
+    // build from the innermost ring outwards
+    let mut inner: Option<Rc<BNode>> = None;
+    let mut weaks: Vec<Weak<BNode>> = vec![];
+    for i in (0..k).rev() {
+        let a = mk(2 * i);
+        let b = mk(2 * i + 1);
+        unsafe {
+            Rc::adopt_unchecked(&a, &b);
+        }
+        let a2 = Rc::clone(&a);
+        unsafe {
+            Rc::adopt_unchecked(&b, &a2);
+        }
+        b.next.borrow_mut().push(a2);
+        if let Some(h) = inner.take() {
+            // plain handle, not adopted
+            b.next.borrow_mut().push(h);
+        }
+        if c.weaks.len() > i % 4 {
+            weaks.push(Rc::downgrade(&b));
+        }
+        a.next.borrow_mut().push(b);
+        inner = Some(a);
+    }
+    let h0 = inner.take().unwrap();
+    exec::set_msg(&format!("drop of the only outside handle of the first of {} chained two-member rings ({} nested collections)", k, k));
+    sh.op = 1;
+    sh.phase = Phase::Lib as u32;
+    // nesting is recursion by nature (as with any chain of owned values): a
+    // normal 8 MiB stack is used here
+    let b = std::sync::Mutex::new(SendBox(Some(h0)));
+    let t = std::thread::Builder::new()
+        .stack_size(8 * 1024 * 1024)
+        .spawn(move || {
+            let h = b.lock().unwrap().0.take();
+            drop(h);
+        })
+        .expect("spawn");
+    let ok = t.join().is_ok();
+    sh.phase = 0;
+    if !ok {
+        violate(View::LibPanic, "the drop panicked");
+    }
+    let d = DESTROYED.load(Ordering::Relaxed);
+    if d != 2 * k {
+        violate_soft(
+            View::Orphan,
+            &format!("{} chained two-member rings: the drop of the only outside handle destroyed {} of {} objects (ring {} and the rings behind it were orphaned by a destructor running inside {} nested collections and never collected)", k, d, 2 * k, d / 2, d / 2),
+        );
+    }
+    for w in &weaks {
+        if d == 2 * k && (w.upgrade().is_some() || w.strong_count() != 0) {
+            violate_soft(View::Weak, "Weak to a member of a collected nested ring still reports it alive");
+        }
+    }
+}
+
+/// C14 at scale: a hub that adopted N distinct objects and unadopted all of
+/// them again has no recorded adoption: cloning and dropping a handle to it
+/// must not trace, allocate or free.
+fn body_hub_emptied(c: &BigCase, tier: Tier) {
+    let sh = shared();
+    let (n, _) = sizes(c, tier);
+    let n = n.min(6000);
+    sh.counters[20] = n as u64 + 1;
+    sh.labels = (1 << L_HUB_EMPTIED) | (1 << L_GT16) | if n > 128 { 1 << L_GT128 } else { 0 };
+    let mk = |id: usize| {
+        Rc::new(BNode { pad: [id as u64; 136], id: id as u32, canary: CANARY ^ id as u64, clone_on_drop: Cell::new(false), next: RefCell::new(Vec::new()) })
+    };
+    let hub = mk(0);
+    *hub.next.borrow_mut() = Vec::with_capacity(n + 1);
+    let spokes: Vec<Rc<BNode>> = (1..=n).map(mk).collect();
+    for s in &spokes {
+        let cl = Rc::clone(s);
+        unsafe { Rc::adopt_unchecked(&hub, &cl) };
+        hub.next.borrow_mut().push(cl);
+    }
+    // optionally the spokes adopt the hub back (backward and forward entries)
+    if c.double {
+        for s in &spokes {
+            let cl = Rc::clone(&hub);
+            unsafe { Rc::adopt_unchecked(s, &cl) };
+            s.next.borrow_mut().push(cl);
+        }
+    }
+    // handles are parked and only dropped once the tables are empty again: a drop
+    // of a handle to an object that still has links would run a trace each time
+    let mut parked: Vec<Rc<BNode>> = Vec::with_capacity(2 * n + 2);
+    if c.double {
+        for s in &spokes {
+            let h = s.next.borrow_mut().pop().unwrap();
+            Rc::unadopt(s, &h);
+            parked.push(h);
+        }
+    }
+    loop {
+        let Some(h) = hub.next.borrow_mut().pop() else { break };
+        Rc::unadopt(&hub, &h);
+        parked.push(h);
+    }
+    if !Rc::__verif_links(&hub).is_empty() {
+        violate_soft(View::Table, "hub still has link-table entries after every adoption was unadopted");
+        return;
+    }
+    // every parked handle points to an object that has no recorded adoption now
+    // and stays alive: dropping them must be free (the very first such drop is
+    // where a lazily shrinking table would show)
+    {
+        let st = arena::st();
+        cactusref::__verif::reset();
+        let (a0, f0) = (st.n_alloc, st.n_free);
+        for h in parked.drain(..) {
+            let _t = arena::track_on();
+            drop(h);
+        }
+        let traces = cactusref::__verif::counters()[0];
+        if st.n_alloc != a0 || st.n_free != f0 || traces != 0 {
+            violate_soft(
+                View::Cost,
+                &format!("dropping non-final handles to objects without recorded adoptions (a former hub of {} adoptees and its former adoptees) performed {} allocation(s), {} free(s), {} trace(s)", n, st.n_alloc - a0, st.n_free - f0, traces),
+            );
+        }
+    }
+    drop(parked);
+    sh.op = 1;
+    exec::set_msg(&format!("clone / non-final drop of a handle to a hub that once had {} adoptions and none now", n));
+    let st = arena::st();
+    for round in 0..3 {
+        cactusref::__verif::reset();
+        let _t = arena::track_on();
+        let (a0, f0) = (st.n_alloc, st.n_free);
+        let cl = Rc::clone(&hub);
+        let (a1, f1) = (st.n_alloc, st.n_free);
+        drop(cl);
+        let (a2, f2) = (st.n_alloc, st.n_free);
+        drop(_t);
+        let traces = cactusref::__verif::counters()[0];
+        if a1 != a0 || f1 != f0 {
+            violate_soft(View::Cost, &format!("cloning a handle to an object without recorded adoptions (former hub of {}) allocated/freed", n));
+        }
+        if a2 != a1 || f2 != f1 || traces != 0 {
+            violate_soft(
+                View::Cost,
+                &format!("round {}: dropping a non-final handle to an object without recorded adoptions (former hub of {} adoptees) performed {} allocation(s), {} free(s), {} trace(s)", round, n, a2 - a1, f2 - f1, traces),
+            );
+        }
+    }
+    drop(spokes);
+    drop(hub);
+}
+
 pub struct BigKind;
 
 impl Kind for BigKind {
     type Case = BigCase;
     fn strategy(id: &str, _tier: Tier, _variant: u64) -> BoxedStrategy<BigCase> {
+        let unwrap_probe = id == "C12";
+        let nest_pct: u32 = match id {
+            "C10" => 70,
+            "C03" => 15,
+            _ => 0,
+        };
         let panic_pct: u32 = match id {
             "C03" | "C11" => 40,
             "C02" => 20,
             _ => 0,
         };
         let nodrop_pct: u32 = match id {
+            "C12" => 100,
             "C04" | "C02" => 60,
             "C16" => 0,
             _ => 15,
@@ -615,6 +870,9 @@ impl Kind for BigKind {
                 clone_at: if cp < clone_pct { Some(cn) } else { None },
                 order,
                 panic_at: if (cn >> 8) % 100 < panic_pct { Some(cn >> 16) } else { None },
+                nest: if (order >> 3) as u32 % 100 < nest_pct { 2 + (cn % 240) as u16 } else { 0 },
+                sink: dbl == 9 || dbl == 8,
+                unwrap_probe: unwrap_probe && order & 1 == 1,
                 nodrop: (order >> 8) as u32 % 100 < nodrop_pct,
             })
             .boxed()
@@ -623,7 +881,40 @@ impl Kind for BigKind {
         let views = props::prop(id).map(|p| p.views).unwrap_or(0) | View::Crash.bit() | View::Mem.bit() | View::LibPanic.bit();
         let cc = c.clone();
         let idc = id.to_string();
-        let mut r = exec::run_forked(views, 180, move || if cc.nodrop { body_nodrop(&idc, &cc, tier) } else { body(&idc, &cc, tier) });
+        let run_once = |salt: usize| {
+            let cc = cc.clone();
+            let idc = idc.clone();
+            exec::run_forked(views, 180, move || {
+                SALT.store(salt, Ordering::Relaxed);
+                if cc.nodrop && idc != "C14" {
+                    body_nodrop(&idc, &cc, tier)
+                } else {
+                    body(&idc, &cc, tier)
+                }
+            })
+        };
+        let mut r = run_once(0);
+        if id == "C09" && r.outcome == exec::Outcome::Pass {
+            // the same case under two more heap layouts: what the final drops
+            // destroyed must not depend on addresses
+            for salt in [5usize, 11] {
+                let r2 = run_once(salt);
+                if r2.outcome != exec::Outcome::Pass {
+                    r = r2;
+                    break;
+                }
+                if r2.counters[27] != r.counters[27] || (r2.counters[exec::SOFT_COUNTER] > 0) != (r.counters[exec::SOFT_COUNTER] > 0) {
+                    r.outcome = exec::Outcome::Violation;
+                    r.view = View::Layout as u32;
+                    r.msg = format!(
+                        "[layout-dependence] the same large-scale case destroyed {} objects under one heap layout and {} under another (or tripped another property's view under only one of them)",
+                        r.counters[27].saturating_sub(1),
+                        r2.counters[27].saturating_sub(1)
+                    );
+                    break;
+                }
+            }
+        }
         // a death of the process inside a drop that was not an expected abort
         if r.signal != 0 && r.outcome != exec::Outcome::ExpectedAbort && r.outcome != exec::Outcome::Timeout {
             let (n, m) = sizes(c, tier);
